@@ -38,6 +38,9 @@ def main(argv):
     ctx = core.Ctx(pid, tier, seed)
     try:
         mod.run(ctx)
+    except core.CorrespondenceBroken as e:
+        ctx.corr_mismatch("tie-to-the-implementation", {}, str(e))
+        return ctx.finish()
     except Exception as e:
         # an exception raised INSIDE /repo code, on an input the harness feeds it on every run of the unchanged tree, is a
         # broken correspondence (the implementation no longer does what the model does there): reported as such
